@@ -216,7 +216,7 @@ func underExcludedDir(rules []refignore.Rule, p string) bool {
 
 func genCase(unpriv bool) func(t *rapid.T) Case {
 	return func(t *rapid.T) Case {
-		cfg := tgen.Config{MaxNodes: 22, Links: true, Special: !unpriv || true, IgnoreNames: true, Awkward: true, Unpriv: unpriv, OddTimes: true}
+		cfg := tgen.Config{MaxNodes: 22, Links: true, Special: !unpriv || true, IgnoreNames: true, Awkward: true, Unpriv: unpriv, OddTimes: true, HardLinks: true}
 		c := Case{Tree: tgen.Gen(t, cfg)}
 		c.Opts.Deref = rapid.Bool().Draw(t, "deref")
 		c.Opts.Ignore = rapid.Bool().Draw(t, "ignore")
